@@ -355,6 +355,10 @@ namespace Pistache
             std::ostream os(&stream.buf_);
             os << std::hex << size(val) << crlf;
             os << val << crlf;
+            if (!os)
+            {
+                throw Error("Response exceeded buffer size");
+            }
 
             return stream;
         }
